@@ -917,19 +917,19 @@ PROPS = {
     },
     "C08": {
         "property_modules": ["Zlink.Properties.C08"], "lean_modules": ["Zlink.Properties.C08"],
-        "theorems": ["C08.C08_refinement", "C08.C08_quiescent", "C08.C08_oneway_silent", "C08.C08_one_reply", "C08.C08_in_order"],
+        "theorems": ["C08.C08_refinement", "C08.C08_quiescent", "C08.C08_model_satisfies_oracle", "C08.C08_oneway_silent", "C08.C08_one_reply", "C08.C08_in_order"],
         "run": run_srv_scenarios(["srv"]), "trusted_base": TB_COMMON, "assumptions": SRV_ASSUME,
     },
     "C09": {
         "property_modules": ["Zlink.Properties.C09"], "lean_modules": ["Zlink.Properties.C09"],
-        "theorems": ["C09.C09_noninterference", "C09.C09_faults_unconstrained", "C09.C09_bad_connect_unconstrained",
+        "theorems": ["C09.C09_noninterference", "C09.C09_same_replies_whoever_else_is_there", "C09.C09_faults_unconstrained", "C09.C09_bad_connect_unconstrained",
                      "C09.C09_write_failure_local", "C09.C09_server_alive"],
         "run": run_srv_scenarios(["srv-faults"]), "trusted_base": TB_COMMON, "assumptions": SRV_ASSUME,
     },
     "C10": {
         "property_modules": ["Zlink.Properties.C10"], "lean_modules": ["Zlink.Properties.C10"],
         "theorems": ["C10.C10_stream_order", "C10.C10_items", "C10.C10_resume", "C10.C10_others_served",
-                     "C10.C10_open_stream_blocks_nobody", "C10.C10_pending_stream_untouched", "C10.C10_stream_rotation",
+                     "C10.C10_open_stream_blocks_nobody", "C10.C10_results_accounted", "C10.C10_pending_stream_untouched", "C10.C10_stream_rotation",
                      "C10.C10_unwritable_drops_only_subscription"],
         "run": run_srv_scenarios(["srv-stream"]), "trusted_base": TB_COMMON,
         "assumptions": SRV_ASSUME + ["the service's stream is polled through StreamExt::next, which keeps no state of its own between polls (a dropped next() future loses nothing): assumed of futures_util, observed by the gated cases"],
